@@ -554,12 +554,12 @@ Qed.
 Lemma zero_vals_adel k m : zero_vals m -> zero_vals (adel k m).
 Proof. intros Z k' c' H. apply in_adel_in in H. eapply Z. eassumption. Qed.
 
-Lemma tick_next_zc st h rest acc st' o :
-  tick_next st h rest acc = StepOk st' o -> zero_vals rest ->
+Lemma tick_next_zc c st h rest acc st' o :
+  tick_next c st h rest acc = StepOk st' o -> zero_vals rest ->
   pc_cf0 (s_pc st') /\ s_buf st' = s_buf st /\ s_clients st' = s_clients st /\ s_store st' = s_store st.
 Proof.
   unfold tick_next. destruct rest as [|p r].
-  - intros Hs _. inversion Hs; subst; sproj. repeat split.
+  - intros Hs _. open_prep Hs. inversion Hs; subst; sproj. repeat split.
   - destruct (h_tick_key h) as [k|].
     + destruct (aget k (p :: r)) as [cf|] eqn:E.
       * intros Hs Z. assert (Zr : zero_vals (adel k (p :: r))) by (apply zero_vals_adel; assumption).
@@ -612,12 +612,12 @@ Proof.
         destruct (client_of st a0); try discriminate.
         destruct (drain_buffer _) as [st2 cbs] eqn:DB. inversion H; subst.
         eapply G; [| |exact DB]; [apply (clients_cf0_set st); [assumption|reflexivity|exact I]|reflexivity].
-  - cbn [pc_cf0] in Z3. subst c0. destruct added; inversion H; subst; unfold ZeroConf, emit; try destruct (c_metrics c); sproj;
+  - cbn [pc_cf0] in Z3. subst c0. destruct added; [open_track H|]; inversion H; subst; unfold ZeroConf, emit; try destruct (c_metrics c); sproj;
       (split; [assumption|]; split; [apply Same; sproj; reflexivity|]; split; [exact I|]; try assumption; apply try_insert_em_zero; assumption).
   - unfold next_victim in H. destruct victims; inversion H; subst; unfold ZeroConf; sproj;
       (split; [assumption|]; split; [apply Same; sproj; reflexivity|]; split; [exact I|assumption]).
   - destruct v as [vk vcost]. destruct (st_try_remove _ _ _) as [sto prev] eqn:TR.
-    pose proof (try_remove_em_zero _ _ _ _ _ Z4 TR) as Z4'. unfold next_victim in H.
+    pose proof (try_remove_em_zero _ _ _ _ _ Z4 TR) as Z4'. open_prep H. unfold next_victim in H.
     destruct rest; inversion H; subst; unfold ZeroConf; sproj;
       (split; [assumption|]; split; [apply Same; sproj; reflexivity|]; split; [exact I|assumption]).
   - destruct (st_try_remove _ _ _) as [sto prev] eqn:TR.
@@ -852,13 +852,13 @@ Proof.
   - inversion H; subst. ag_cl AG st K.
 Qed.
 
-Lemma tick_next_agree_fields st h rest acc st' o :
-  tick_next st h rest acc = StepOk st' o ->
+Lemma tick_next_agree_fields c st h rest acc st' o :
+  tick_next c st h rest acc = StepOk st' o ->
   s_store st' = s_store st /\ s_slfu st' = s_slfu st /\ s_buf st' = s_buf st /\ s_clients st' = s_clients st /\
   (s_pc st' = PIdle \/ exists k cf r a, s_pc st' = PTickKey k cf r a).
 Proof.
   unfold tick_next. destruct rest as [|p r].
-  - intros Hs. inversion Hs; subst; sproj. repeat split; auto.
+  - intros Hs. open_prep Hs. inversion Hs; subst; sproj. repeat split; auto.
   - destruct (h_tick_key h) as [k|]; [|intros Hs; discriminate Hs].
     destruct (aget k (p :: r)) as [cf|]; [|intros Hs; discriminate Hs].
     intros Hs. remember (adel k (p :: r)) as rest' in *. inversion Hs; subst st'; sproj.
@@ -1010,10 +1010,10 @@ Proof.
               (x = k /\ added = true) \/ (exists cf, In (IDelete x cf) (s_buf st)) \/ (exists a cf, client_of st a = KRemSend x cf)).
     { intros x H1 H2. specialize (A2 x H1 H2). destruct A2 as [(? & ? & ? & ? & ? & X)|[X|[X|[(? & X)|X]]]];
         try (rewrite PC in X; discriminate X); auto. rewrite PC in X. inversion X; subst. auto. }
-    destruct added; inversion H; subst; clear H.
-    + assert (HS : forall x, inS (upd_pc (emit c (upd_store st (st_try_insert (c_validator c) (s_store st) k v 0 exp)) [(MKeyAdd, 1)]) (PNewAfterStore victims)) x = N.eqb x k || inS st x)
+    destruct added; [open_track H|]; inversion H; subst; clear H.
+    + assert (HS : forall x, inS (upd_pc (upd_start (emit c (upd_store st (st_try_insert (c_validator c) (s_store st) k v 0 exp)) [(MKeyAdd, 1)]) s0) (PNewAfterStore victims)) x = N.eqb x k || inS st x)
         by (intros x; unfold inS, emit; destruct (c_metrics c); sproj; apply try_insert_keys).
-      assert (HC : forall x, inC (upd_pc (emit c (upd_store st (st_try_insert (c_validator c) (s_store st) k v 0 exp)) [(MKeyAdd, 1)]) (PNewAfterStore victims)) x = inC st x)
+      assert (HC : forall x, inC (upd_pc (upd_start (emit c (upd_store st (st_try_insert (c_validator c) (s_store st) k v 0 exp)) [(MKeyAdd, 1)]) s0) (PNewAfterStore victims)) x = inC st x)
         by (intros x; unfold inC, emit; destruct (c_metrics c); sproj; reflexivity).
       split; [|split].
       * intros x H1 H2. rewrite HS in H1. rewrite HC in H2. unfold ExcS; sproj. left. cbn [pc_victims].
@@ -1047,7 +1047,7 @@ Proof.
       * unfold PcOk; sproj. exact P.
   - (* ---- one victim ---- *)
     unfold PcOk in P. rewrite PC in P. destruct v as [vk vcost].
-    destruct (st_try_remove _ _ _) as [sto prev] eqn:TR. unfold next_victim in H.
+    destruct (st_try_remove _ _ _) as [sto prev] eqn:TR. open_prep H. unfold next_victim in H.
     assert (OldS : forall x, inS st x = true -> inC st x = false -> In x (vkeys ((vk, vcost) :: rest))).
     { intros x H1 H2. specialize (A1 x H1 H2). destruct A1 as [X|[(? & X)|[(? & ? & ? & ? & X)|[(? & X)|X]]]];
         rewrite PC in X; try discriminate X. exact X. }
@@ -1110,7 +1110,7 @@ Proof.
     { intros x H1 H2. specialize (A1 x H1 H2). excS_contra A1 PC. }
     assert (OnlyBC : forall x, ExcC st x -> (exists cf, In (IDelete x cf) (s_buf st)) \/ (exists a cf, client_of st a = KRemSend x cf)).
     { intros x X. destruct X as [(? & ? & ? & ? & ? & X)|[X|[X|[(? & X)|X]]]]; try (rewrite PC in X; discriminate X); auto. }
-    assert (Skip : forall st1 o1, tick_next st h rest acc = StepOk st1 o1 -> Agree st1).
+    assert (Skip : forall st1 o1, tick_next c st h rest acc = StepOk st1 o1 -> Agree st1).
     { intros st1 o1 T. apply tick_next_agree_fields in T. destruct T as (Es & El & Eb & Ec & Ep).
       apply (Agree_to_plain_pc st); try assumption.
       - intros x. unfold inS. rewrite Es. reflexivity.
@@ -1314,10 +1314,10 @@ Proof.
         -- destruct (find_offer false (s_clients st)) as [a0|]; [|discriminate]. destruct (client_of st a0); try discriminate.
            destruct (drain_buffer _) as [st2 cbs] eqn:DB. inversion H; subst; sproj.
            apply drain_buffer_frame in DB. destruct DB as (_ & Est & _). rewrite Est. sproj. assumption.
-    + destruct added; inversion H; subst; unfold emit; try destruct (c_metrics c); sproj; try assumption; apply nd_try_insert; assumption.
+    + destruct added; [open_track H|]; inversion H; subst; unfold emit; try destruct (c_metrics c); sproj; try assumption; apply nd_try_insert; assumption.
     + unfold next_victim in H. destruct victims; inversion H; subst; sproj; assumption.
     + destruct v as [vk vcost]. destruct (st_try_remove _ _ _) as [sto prev] eqn:TR. pose proof (nd_try_remove _ _ _ _ _ ND TR).
-      unfold next_victim in H. destruct rest; inversion H; subst; sproj; assumption.
+      open_prep H. unfold next_victim in H. destruct rest; inversion H; subst; sproj; assumption.
     + destruct (st_try_remove _ _ _) as [sto prev] eqn:TR. pose proof (nd_try_remove _ _ _ _ _ ND TR). inversion H; subst; sproj; assumption.
     + inversion H; subst; sproj; assumption.
     + inversion H; subst; sproj. constructor.
